@@ -66,7 +66,8 @@ type Cfg struct {
 	RealAlloc      bool            `json:"real_alloc,omitempty"` // UTXO records in lib/others/memory instead of the Go heap
 	TrustChecker   bool            `json:"trust_checker,omitempty"` // chain.TrustedTxChecker installed: about half of the (really) valid transactions count as verified by the pool
 	FreshDir       bool            `json:"fresh_dir,omitempty"` // the node has block files but has never written a snapshot
-	PadLimit       bool            `json:"pad_limit,omitempty"` // proof-of-work limit 0x2000ffff: a compact form whose mantissa starts with a zero byte (as the main net's 0x1d00ffff), 256 hashes per block
+	BigSet         bool            `json:"big_set,omitempty"` // every prefix block leaves ~66 kB of unspent scripts: a snapshot of more than a hundred 64 KiB chunks
+	PadLimit       bool            `json:"pad_limit,omitempty"` // proof-of-work limit 0x20008000: a compact form whose mantissa starts with a zero byte (as the main net's 0x1d00ffff), the target itself one byte shorter than the exponent says; 512 hashes per block
 	Young          int             `json:"young,omitempty"`      // >0: a chain of only this many blocks (fewer than 11 ancestors for the median time, nothing mature)
 	Blocks         []*ledger.Block `json:"blocks"`
 	Now0           int64           `json:"now0"`
@@ -127,6 +128,9 @@ func (c *Cfg) net() int {
 	if c.PadLimit {
 		return 6
 	}
+	if c.BigSet {
+		return 7
+	}
 	if c.Young > 0 {
 		n := 100 + c.Young
 		if c.Testnet {
@@ -157,7 +161,7 @@ var prefixCache = map[int][]*ledger.Block{}
 func (c *Cfg) baseP() ledger.Params {
 	p := baseParams(c.Testnet)
 	if c.PadLimit {
-		p.PowLimitBits = 0x2000ffff
+		p.PowLimitBits = 0x20008000
 	}
 	return p
 }
@@ -211,7 +215,11 @@ func prefix(cfg *Cfg) []*ledger.Block {
 		return res
 	}
 	for i := 0; i < cfg.plen(); i++ {
-		b, _ := m.Build(cur, ledger.BlockOpts{NTx: 0})
+		o := ledger.BlockOpts{NTx: 0}
+		if cfg.BigSet {
+			o.Fat, o.FatN = 9500, 6
+		}
+		b, _ := m.Build(cur, o)
 		n := l.Add(b, 1<<40)
 		if n == nil || !n.Valid() {
 			panic("prefix block invalid: " + n.Clause)
@@ -253,7 +261,9 @@ func (H) Gen(prop string, seed uint64, tier string) *hx.Case {
 		SaveTargetMs: []int{0, 50, 5000}[r.Intn(3)], SkipSave: uint32(r.Intn(4)), ClientRecovery: r.Chance(0.5),
 		MaxConsec: []int{50, 500, 5000}[r.Intn(3)], SchedSeed: r.U64()}
 	cfg.P = baseParams(cfg.Testnet)
-	if (prop == "C05" && r.Chance(0.12) || prop == "C06" && r.Chance(0.04)) && !cfg.Testnet {
+	if prop == "C11" && r.Chance(0.1) && !cfg.Testnet {
+		cfg.BigSet = true // the snapshot writer's queue of chunks can fill up
+	} else if (prop == "C05" && r.Chance(0.12) || prop == "C06" && r.Chance(0.04)) && !cfg.Testnet {
 		cfg.PadLimit = true // hashes one byte shorter than the compact exponent says exist above and below the target
 		cfg.P = cfg.baseP()
 	} else if prop == "C05" && r.Chance(0.1) {
@@ -281,6 +291,11 @@ func (H) Gen(prop string, seed uint64, tier string) *hx.Case {
 	}
 	if r.Chance(0.3) {
 		cfg.ChildFirstP = []float64{0.1, 0.3, 0.6, 1}[r.Intn(4)]
+	}
+	if r.Chance(0.25) || cfg.BigSet && r.Chance(0.6) {
+		// priority scheduling: a goroutine of low priority (say, the file writer of a snapshot) does not run until
+		// everything above it is blocked
+		cfg.PCT, cfg.PCTSteps = r.Range(1, 4), []int{300, 3000, 30000, 300000}[r.Intn(4)]
 	}
 	if (prop == "C04" || prop == "C02" || prop == "C06" || prop == "C11") && r.Chance(0.3) {
 		cfg.TrustChecker = true
@@ -541,7 +556,7 @@ func (H) Gen(prop string, seed uint64, tier string) *hx.Case {
 			}
 		}
 	}
-	if (prop == "C06" || prop == "C07") && r.Chance(0.3) && int(best.Height) > cfg.plen()+1 {
+	if ((prop == "C06" || prop == "C07") && r.Chance(0.3) || prop == "C11" && r.Chance(0.4)) && int(best.Height) > cfg.plen()+1 {
 		// a side branch that outgrows the active chain but whose j-th block (j>=2) is invalid only in context:
 		// the reorganisation connects j-1 of its blocks, fails, and must end on the most-work valid chain again
 		d := uint32(r.Range(1, 3))
@@ -1235,7 +1250,7 @@ func (H) Run(t *testing.T, c *hx.Case) *hx.Outcome {
 	if prop == "" {
 		prop = "C06"
 	}
-	for name, on := range map[string]bool{"variant_long_prefix": cfg.Long, "variant_young_chain": cfg.Young > 0, "variant_padded_pow_limit": cfg.PadLimit, "variant_fresh_dir": cfg.FreshDir, "variant_real_allocator": cfg.RealAlloc, "variant_testnet": cfg.Testnet} {
+	for name, on := range map[string]bool{"variant_long_prefix": cfg.Long, "variant_young_chain": cfg.Young > 0, "variant_padded_pow_limit": cfg.PadLimit, "variant_big_unspent_set": cfg.BigSet, "variant_fresh_dir": cfg.FreshDir, "variant_real_allocator": cfg.RealAlloc, "variant_testnet": cfg.Testnet} {
 		if on {
 			out.Probe(name, 1)
 		}
